@@ -24,6 +24,8 @@ class RemainingOperationsObserver(FeatureObserver):
         subscribe: bool = True,
         feature_types: list[FeatureType] | FeatureType | None = None,
     ):
+        # Validate the request before anything is subscribed.
+        feature_types = self._get_feature_types_list(feature_types)
         # The `UnscheduledOperationsObserver` must be subscribed before this
         # observer so that it has already been reset when this observer
         # re-initializes its features from it in `reset`.
